@@ -33,6 +33,9 @@ PS, PL = "PauliString", "label"
 OBJ, BITS, GI = "obj", "bits", "gi"
 COLL = "coll"
 STRT = "pytext"
+QT = "Q"                # exact rational (numerator, denominator): Python's true division of two ints (floats are not modelled)
+CL = ("collection",)    # a PauliStringCollection read through its public protocol: the list of its strings
+SETT = ("pset",)        # a set of PauliStrings: a duplicate-free list
 def T_opt(t): return ("option", t)
 MORPH = ("morph",)      # a Morph object = its legs : list (list V)
 
@@ -46,6 +49,8 @@ def coq_type(t):
     if t == OBJ: return "obj"
     if t == COLL: return "coll"
     if t == STRT: return "(list ascii)"
+    if t == QT: return "(Z * Z)"
+    if t in (CL, SETT): return "(list pstr)"
     if isinstance(t, tuple) and t[0] == "option": return "(option %s)" % coq_type(t[1])
     if t == BITS: return "(list bool)"
     if t == GI: return "gi"
@@ -65,6 +70,8 @@ def default(t, enums):
     if t == OBJ: return "(fresh_bits [])"
     if t == COLL: return "{| gens := []; cache := None |}"
     if t == STRT: return "[]"
+    if t == QT: return "(0, 1)"
+    if t in (CL, SETT): return "[]"
     if isinstance(t, tuple) and t[0] == "option": return "None"
     if t == GI: return "(0, 0)"
     if t == MORPH: return "[]"
@@ -1726,12 +1733,607 @@ class TableTranslator:
         return "\n".join(out)
 
 
+class Specialise(ast.NodeTransformer):
+    """constant-propagate one parameter: mode true/false replaces every read of a bool parameter; mode none/some decides
+    `p is None` / `p is not None`; `if <constant>` is folded.  One Gallina function per specialisation."""
+    def __init__(self, name, mode):
+        self.name, self.mode = name, mode
+    def visit_Compare(self, n):
+        if self.mode in ("none", "some") and isinstance(n.left, ast.Name) and n.left.id == self.name and len(n.ops) == 1 \
+           and isinstance(n.ops[0], (ast.Is, ast.IsNot)) and isinstance(n.comparators[0], ast.Constant) and n.comparators[0].value is None:
+            return ast.copy_location(ast.Constant(value=(self.mode == "none") == isinstance(n.ops[0], ast.Is)), n)
+        return self.generic_visit(n)
+    def visit_Name(self, n):
+        if self.mode in ("true", "false") and n.id == self.name and isinstance(n.ctx, ast.Load):
+            return ast.copy_location(ast.Constant(value=self.mode == "true"), n)
+        return n
+    def visit_If(self, n):
+        n = self.generic_visit(n)
+        if isinstance(n.test, ast.Constant) and isinstance(n.test.value, bool):
+            return n.body if n.test.value else n.orelse
+        return n
+
+
+def is_nil(c): return "(match %s with [] => true | _ => false end)" % c
+VERR = "Raised (EUser \"ValueError\"%string)"
+
+
+class AppFn(ModFn):
+    """a function of the graph / orbit applications (common/get_graph.py, application/otoc.py, fourpoint.py, charges.py) or a read-only
+    method of PauliStringCollection / PauliString, at the level of Pauli strings (Model/Pauli.pstr).  Contracts (trusted; each is either
+    a theorem of Refine/PSRefine.v or Refine/CollRefine.v about the source, or pinned source text, or Python's own semantics):
+    a ^ b = adjoint_code a b, a | b = a.commutes_with(b) = commutes_code a b, a @ b = multiply_code a b (ValueError on unequal lengths),
+    a == b = pstr_eqb, str(a) = the string itself, bool(a) = (len(a) != 0) [PauliString defines __len__ and no __bool__];
+    a PauliStringCollection read through len / iteration / `in` / truthiness is the list of its strings (its __len__, __iter__, __next__ are
+    pinned); PauliStringCollection(l) holds gens (mk l); c.append(p) on a collection is the model's Append transition;
+    PauliString(n=k) = identity k; p.gen_all_pauli_strings() = gen_all (len p) [Model/PauliBits.v, source pinned];
+    itertools.combinations(l, 2) = pairs_of l; set() / deque are lists (add = insert if absent, popleft = head, append = at the end);
+    int / int = the exact rational (the float the source computes is not modelled); a dict is an association list in insertion order;
+    while loops run on fuel."""
+    def __init__(self, tr, node, cls, coq, drop=(), orig=None):
+        Fn.__init__(self, tr, None, node)
+        self.cls, self.coq = cls, coq
+        self.params, self.defaults = {}, {}
+        args = node.args.args
+        if node.args.vararg or node.args.kwarg or node.args.kwonlyargs or node.decorator_list: bad(node, "signature")
+        dfl = [None] * (len(args) - len(node.args.defaults)) + list(node.args.defaults)
+        for a, d in zip(args, dfl):
+            if a.arg in drop: continue
+            if a.arg == "self":
+                self.params["self"] = CL if cls == "PauliStringCollection" else PS
+                continue
+            self.params[a.arg] = self.ann_type(a.annotation, a)
+            if d is not None:
+                if not (isinstance(d, ast.Constant) and d.value is None and self.params[a.arg] == T_list(PS)): bad(a, "default value")
+                self.defaults[a.arg] = "[]"
+        self.self_t = None
+        self.narrow = set()
+        self.qret = False
+        self.fuel = any(isinstance(x, ast.While) for x in ast.walk(node)) or any(
+            isinstance(x, ast.Call) and isinstance(x.func, ast.Name) and ("", x.func.id) in tr.families and any(f.fuel for f in tr.families[("", x.func.id)]["fns"].values())
+            for x in ast.walk(node))
+        stored = {n.id for n in ast.walk(node) if isinstance(n, ast.Name) and isinstance(n.ctx, ast.Store)}
+        self.reassigned = [p for p in self.params if p in stored]
+        for p in self.reassigned: self.vars[p] = self.params[p]
+        # container variables: typed by their first use
+        self.ctypes = {}
+        for x in ast.walk(orig if orig is not None else node):
+            if isinstance(x, ast.Call) and isinstance(x.func, ast.Attribute) and isinstance(x.func.value, ast.Name) and x.func.attr in ("append", "add") and len(x.args) == 1:
+                self.ctypes.setdefault(x.func.value.id, self.guess(x.args[0]))
+            if isinstance(x, ast.Assign) and len(x.targets) == 1 and isinstance(x.targets[0], ast.Subscript) and isinstance(x.targets[0].value, ast.Name):
+                self.ctypes.setdefault(x.targets[0].value.id, (self.guess(x.targets[0].slice), self.guess(x.value)))
+
+    def guess(self, e):
+        """type of a stored element, guessed from its shape; a wrong guess is rejected when the store itself is translated"""
+        if isinstance(e, ast.Tuple): return T_tuple([self.guess(x) for x in e.elts])
+        return PS
+
+    def ann_type(self, a, node):
+        txt = ast.unparse(a) if a is not None else None
+        tbl = {"int": Z, "bool": B, "PauliString": PS, "list[PauliString]": T_list(PS), "list[PauliString] | None": T_list(PS),
+               "PauliStringCollection": CL, "Union[list[PauliString] | PauliStringCollection | None]": T_list(PS)}
+        if txt not in tbl: bad(node, "annotation %r" % txt)
+        return tbl[txt]
+
+    @staticmethod
+    def listy(t): return t in (CL, SETT) or (isinstance(t, tuple) and t[0] == "list")
+    @staticmethod
+    def same(a, b): return a == b or (a in (CL, T_list(PS)) and b in (CL, T_list(PS)))
+
+    def eqb_of(self, t):
+        if t == PS: return "pstr_eqb"
+        if isinstance(t, tuple) and t[0] == "tuple" and len(t[1]) == 2:
+            return "(fun a_ b_ => %s (fst a_) (fst b_) && %s (snd a_) (snd b_))" % (self.eqb_of(t[1][0]), self.eqb_of(t[1][1]))
+        raise Unsupported("no equality for keys of type %r" % (t,))
+
+    # ----- truthiness -----
+    def truthy(self, e, env):
+        """-> (coq bool, guards, name narrowed to a PauliString when true or None)"""
+        if isinstance(e, ast.Name) and e.id not in self.narrow and e.id in env and self.vars.get(e.id) == T_opt(PS):
+            return "(opt_truthy v_%s)" % e.id, [], e.id
+        c, t, g = self.expr(e, env)
+        if t == B: return c, g, None
+        if self.listy(t): return "(negb %s)" % is_nil(c), g, None
+        bad(e, "truth value of %r" % (t,))
+
+    def narrow_names(self, e, env):
+        if isinstance(e, ast.Name) and e.id in env and self.vars.get(e.id) == T_opt(PS) and e.id not in self.narrow: return [e.id]
+        if isinstance(e, ast.BoolOp) and isinstance(e.op, ast.And): return [n for v in e.values for n in self.narrow_names(v, env)]
+        return []
+
+    def test(self, e, env):
+        c, g, _ = self.truthy(e, env)
+        return c, B, g
+
+    # ----- calls of translated functions -----
+    def resolve(self, e):
+        """a call of a translated function / method -> (Fn, [receiver and argument nodes in parameter order, or Coq text for defaults])"""
+        if not isinstance(e, ast.Call): return None
+        f = e.func
+        recv, fam = None, None
+        if isinstance(f, ast.Name) and ("", f.id) in self.tr.families:
+            fam = self.tr.families[("", f.id)]
+        elif isinstance(f, ast.Attribute):
+            scope = set(self.vars) | set(self.params)
+            try:
+                _, t, _ = self.expr(f.value, scope)
+            except Unsupported:
+                return None
+            cls = "PauliStringCollection" if t == CL else ("PauliString" if t == PS else None)
+            if (cls, f.attr) in self.tr.families:
+                fam, recv = self.tr.families[(cls, f.attr)], f.value
+        if fam is None: return None
+        kw = {k.arg: k.value for k in e.keywords}
+        key = "default"
+        if fam["spec"] is not None:
+            sp = fam["spec"]
+            if sp in kw:
+                v = kw.pop(sp)
+                if not (isinstance(v, ast.Constant) and isinstance(v.value, bool)): bad(e, "the specialised parameter %s must be passed a literal" % sp)
+                key = "true" if v.value else "false"
+            else:
+                key = fam["default"]
+        fn = fam["fns"][key]
+        names = [p for p in fn.params if p != "self"]
+        if len(e.args) > len(names): bad(e, "arity")
+        given = dict(zip(names, e.args))
+        for k, v in kw.items():
+            if k not in names or k in given: bad(e, "keyword argument %s" % k)
+            given[k] = v
+        out = [recv] if recv is not None else []
+        for p in names:
+            if p in given: out.append(given[p])
+            elif p in fn.defaults: out.append(fn.defaults[p])
+            else: bad(e, "missing argument %s" % p)
+        return fn, out
+
+    def method_call(self, e):
+        r = self.resolve(e)
+        if r is None: return None
+        fn, nodes = r
+        scope = set(self.vars) | set(self.params)
+        cs = ["fuel"] if fn.fuel else []
+        for a, (pn, pt) in zip(nodes, fn.params.items()):
+            if isinstance(a, str):
+                cs.append(a); continue
+            c, t, g = self.expr(a, scope)
+            if not self.same(t, pt) or g: bad(a, "argument of a call must be an unguarded %r, found %r" % (pt, t))
+            cs.append(c)
+        return " ".join(cs), fn
+
+    def module_call(self, e):
+        m = self.method_call(e)
+        return None if m is None or m[1].pure else m[1]
+
+    # ----- expressions -----
+    def expr(self, e, env):
+        x = self.expr_extra(e, env)
+        if x is not None:
+            return x
+        return Fn.expr(self, e, env)
+
+    def pair_op(self, e, env, a_node, b_node, what):
+        a, ta, ga = self.expr(a_node, env); b, tb, gb = self.expr(b_node, env)
+        if ta != PS or tb != PS: bad(e, "%s of non-PauliStrings (%r, %r)" % (what, ta, tb))
+        return a, b, ga + gb
+
+    def expr_extra(self, e, env):
+        if isinstance(e, ast.Name):
+            if e.id in self.narrow: return "(unopt v_%s)" % e.id, PS, []
+            return None
+        if isinstance(e, ast.Attribute):
+            if ast.unparse(e) == "self.generators" and self.cls == "PauliStringCollection": return "v_self", T_list(PS), []
+            return None
+        if isinstance(e, ast.List):
+            parts = [self.expr(v, env) for v in e.elts]
+            if not parts: bad(e, "empty list literal in an expression")
+            if any(t != parts[0][1] for _, t, _ in parts): bad(e, "list literal of mixed types")
+            return "[" + "; ".join(c for c, _, _ in parts) + "]", T_list(parts[0][1]), [g for _, _, gs in parts for g in gs]
+        if isinstance(e, ast.Subscript) and not isinstance(e.slice, ast.Slice):
+            c, t, g = self.expr(e.value, env)
+            if t not in (T_list(PS), CL): return None
+            ic, it_, ig = self.expr(e.slice, env)
+            if it_ != Z: bad(e, "index must be int")
+            return "(list_get [] %s %s)" % (c, ic), PS, g + ig + [("(idx_ok %s %s)" % (c, ic), "Raised EIndex")]
+        if isinstance(e, ast.Call):
+            f = e.func
+            src = ast.unparse(e)
+            if isinstance(f, ast.Name) and f.id in ("str", "len", "list") and len(e.args) == 1 and not e.keywords:
+                c, t, g = self.expr(e.args[0], env)
+                if f.id == "str" and t == PS: return c, PS, g
+                if f.id == "len" and (t == PS or self.listy(t)): return "(Z.of_nat (length %s))" % c, Z, g
+                if f.id == "list" and self.listy(t) and t != SETT: return c, (T_list(PS) if t == CL else t), g
+                bad(e, "%s of %r" % (f.id, t))
+            if isinstance(f, ast.Name) and f.id == "combinations" and len(e.args) + len(e.keywords) == 2:
+                r = e.args[1] if len(e.args) == 2 else (e.keywords[0].value if e.keywords[0].arg == "r" else None)
+                if not (isinstance(r, ast.Constant) and r.value == 2): bad(e, "combinations(_, 2) only")
+                c, t, g = self.expr(e.args[0], env)
+                if t not in (T_list(PS), CL): bad(e, "combinations over %r" % (t,))
+                return "(pairs_of %s)" % c, T_list(T_tuple([PS, PS])), g
+            if isinstance(f, ast.Name) and f.id == "PauliStringCollection" and not e.keywords and len(e.args) <= 1:
+                if not e.args or (isinstance(e.args[0], ast.List) and not e.args[0].elts): return "(gens (mk []))", CL, []
+                c, t, g = self.expr(e.args[0], env)
+                if t not in (T_list(PS), CL): bad(e, "PauliStringCollection of %r" % (t,))
+                return "(gens (mk %s))" % c, CL, g
+            if isinstance(f, ast.Name) and f.id == "PauliString" and not e.args and len(e.keywords) == 1 and e.keywords[0].arg == "n":
+                c, t, g = self.expr(e.keywords[0].value, env)
+                if t != Z: bad(e, "PauliString(n=...) of a non-int")
+                return "(identity (Z.to_nat %s))" % c, PS, g + [("(0 <=? %s)" % c, VERR)]
+            if isinstance(f, ast.Attribute) and f.attr == "gen_all_pauli_strings" and not e.args and not e.keywords:
+                c, t, g = self.expr(f.value, env)
+                if t != PS: bad(e, "gen_all_pauli_strings of %r" % (t,))
+                return "(gen_all (length %s))" % c, T_list(PS), g
+            if isinstance(f, ast.Attribute) and f.attr == "commutes_with" and len(e.args) == 1 and not e.keywords:
+                a, b, g = self.pair_op(e, env, f.value, e.args[0], "commutes_with")
+                return "(res_val false (commutes_code %s %s))" % (a, b), B, g + [("(res_ok (commutes_code %s %s))" % (a, b), VERR)]
+            if src.startswith("self.create_instance(") and self.cls == "PauliStringCollection" and not e.args and len(e.keywords) == 1 and e.keywords[0].arg == "n":
+                c, t, g = self.expr(e.keywords[0].value, env)
+                if t != Z: bad(e, "create_instance(n=...) of a non-int")
+                return ("(identity (Z.to_nat %s))" % c, PS,
+                        [("(negb %s)" % is_nil("v_self"), "Raised (EUser \"PauliStringCollectionException\"%string)")] + g + [("(0 <=? %s)" % c, VERR)])
+            m = self.method_call(e)
+            if m is not None:
+                args, fn = m
+                if fn.pure: return "(%s %s)" % (fn.coq, args), fn.ret, []
+                bad(e, "call of %s inside an expression" % fn.name)
+            return None
+        if isinstance(e, ast.BinOp):
+            if isinstance(e.op, ast.BitXor):
+                a, b, g = self.pair_op(e, env, e.left, e.right, "^")
+                return "(res_val None (adjoint_code %s %s))" % (a, b), T_opt(PS), g + [("(res_ok (adjoint_code %s %s))" % (a, b), VERR)]
+            if isinstance(e.op, ast.BitOr):
+                a, b, g = self.pair_op(e, env, e.left, e.right, "|")
+                return "(res_val false (commutes_code %s %s))" % (a, b), B, g + [("(res_ok (commutes_code %s %s))" % (a, b), VERR)]
+            if isinstance(e.op, ast.MatMult):
+                a, b, g = self.pair_op(e, env, e.left, e.right, "@")
+                return "(res_val [] (multiply_code %s %s))" % (a, b), PS, g + [("(res_ok (multiply_code %s %s))" % (a, b), VERR)]
+            if isinstance(e.op, ast.Div):
+                a, ta, ga = self.expr(e.left, env); b, tb, gb = self.expr(e.right, env)
+                if ta != Z or tb != Z: bad(e, "/ of non-ints")
+                return "(%s, %s)" % (a, b), QT, ga + gb + [("(negb (%s =? 0))" % b, "Raised EZeroDivision")]
+            if isinstance(e.op, ast.Sub):
+                a, ta, ga = self.expr(e.left, env); b, tb, gb = self.expr(e.right, env)
+                if ta == Z and tb == QT: return "(%s * snd %s - fst %s, snd %s)" % (a, b, b, b), QT, ga + gb
+                if ta == Z and tb == Z: return "(%s - %s)" % (a, b), Z, ga + gb
+                bad(e, "- of %r, %r" % (ta, tb))
+            return None
+        if isinstance(e, ast.UnaryOp) and isinstance(e.op, ast.Not):
+            c, g, _ = self.truthy(e.operand, env)
+            return "(negb %s)" % c, B, g
+        if isinstance(e, ast.BoolOp):
+            parts, added = [], []
+            try:
+                for v in e.values:
+                    c, g, nm = self.truthy(v, env)
+                    parts.append((c, B, g))
+                    if isinstance(e.op, ast.And) and nm is not None and nm not in self.narrow:
+                        self.narrow.add(nm); added.append(nm)
+            finally:
+                for nm in added: self.narrow.discard(nm)
+            op = " && " if isinstance(e.op, ast.And) else " || "
+            gs = list(parts[0][2])
+            for i_ in range(1, len(parts)):
+                reach = "(" + op.join(c for c, _, _ in parts[:i_]) + ")"
+                skip = ("(negb %s)" % reach) if isinstance(e.op, ast.And) else reach
+                gs += [("(%s || %s)" % (skip, gb), o) for gb, o in parts[i_][2]]
+            return "(" + op.join(c for c, _, _ in parts) + ")", B, gs
+        if isinstance(e, ast.Compare) and len(e.ops) == 1:
+            op = e.ops[0]
+            if isinstance(op, (ast.Is, ast.IsNot)) and isinstance(e.comparators[0], ast.Constant) and isinstance(e.comparators[0].value, bool):
+                a, ta, ga = self.expr(e.left, env)
+                if ta != B: bad(e, "is True/False of a non-bool")
+                pos = e.comparators[0].value == isinstance(op, ast.Is)
+                return (a if pos else "(negb %s)" % a), B, ga
+            if isinstance(op, (ast.In, ast.NotIn)):
+                a, ta, ga = self.expr(e.left, env); b, tb, gb = self.expr(e.comparators[0], env)
+                if ta != PS or not (tb in (CL, SETT, T_list(PS))): bad(e, "membership test of %r in %r" % (ta, tb))
+                c = "(memS %s %s)" % (a, b)
+                return (c if isinstance(op, ast.In) else "(negb %s)" % c), B, ga + gb
+            if isinstance(op, (ast.Eq, ast.NotEq)):
+                a, ta, ga = self.expr(e.left, env)
+                if ta == PS:
+                    b, tb, gb = self.expr(e.comparators[0], env)
+                    if tb != PS: bad(e, "== of a PauliString with %r" % (tb,))
+                    c = "(pstr_eqb %s %s)" % (a, b)
+                    return (c if isinstance(op, ast.Eq) else "(negb %s)" % c), B, ga + gb
+            return None
+        if isinstance(e, ast.ListComp):
+            if len(e.generators) != 1 or e.generators[0].is_async or not isinstance(e.generators[0].target, ast.Name): bad(e, "list comprehension shape")
+            gen = e.generators[0]
+            x = gen.target.id
+            it, tit, git = self.expr(gen.iter, env)
+            if not self.listy(tit): bad(e, "comprehension over %r" % (tit,))
+            et = PS if tit in (CL, SETT) else tit[1]
+            if x in self.vars or x in self.params: bad(e, "comprehension variable %s shadows a local" % x)
+            self.vars[x] = et
+            try:
+                conds = [self.truthy(i_, env | {x}) for i_ in gen.ifs]
+                c, t, g = self.expr(e.elt, env | {x})
+            finally:
+                del self.vars[x]
+            src_l = it
+            gs = list(git)
+            for cc, cg, _ in conds:
+                gs += [("(forallb (fun v_%s => %s) %s)" % (x, gb, src_l), o) for gb, o in cg]
+                src_l = "(filter (fun v_%s => %s) %s)" % (x, cc, src_l)
+            gs += [("(forallb (fun v_%s => %s) %s)" % (x, gb, src_l), o) for gb, o in g]
+            if isinstance(e.elt, ast.Name) and e.elt.id == x: return src_l, T_list(t), gs
+            return "(map (fun v_%s => %s) %s)" % (x, c, src_l), T_list(t), gs
+        return None
+
+    # ----- statements -----
+    def hoist(self, s):
+        """a call of a raising function as an argument of a call is evaluated first: x = F(G(), ...)  ->  h_ = G(); x = F(h_, ...)"""
+        v = s.value if isinstance(s, (ast.Return, ast.Assign, ast.Expr)) else None
+        if not isinstance(v, ast.Call) or self.resolve(v) is None: return None
+        for i, a in enumerate(v.args):
+            r = self.resolve(a)
+            if r is not None and not r[0].pure:
+                if any(not isinstance(b, (ast.Name, ast.Attribute, ast.Constant)) for b in v.args[:i]): bad(s, "evaluation order of arguments")
+                self.hcount = getattr(self, "hcount", 0) + 1
+                nm = "h%d_" % self.hcount
+                first = ast.copy_location(ast.Assign(targets=[ast.Name(id=nm, ctx=ast.Store())], value=a), s)
+                v2 = ast.copy_location(ast.Call(func=v.func, args=v.args[:i] + [ast.Name(id=nm, ctx=ast.Load())] + v.args[i + 1:], keywords=v.keywords), v)
+                s2 = ast.copy_location(type(s)(**{**{k: getattr(s, k) for k in s._fields}, "value": v2}), s)
+                return [first, s2]
+        return None
+
+    def block(self, stmts, env, k):
+        if not stmts:
+            return Fn.block(self, stmts, env, k)
+        s, rest = stmts[0], stmts[1:]
+        if isinstance(s, ast.Pass):
+            return self.block(rest, env, k)
+        h = self.hoist(s)
+        if h is not None:
+            self.hcount_save = getattr(self, "hcount", 0)
+            return self.block(h + rest, env, k)
+        if isinstance(s, ast.While):
+            if s.orelse: bad(s, "while-else")
+            c, t, g = self.test(s.test, env)
+            if g: bad(s, "loop condition must be unguarded")
+            body = self.block(s.body, env, None)
+            cont = self.block(rest, env, k)
+            return "(seqo (while_loop fuel (fun %s => %s) (fun %s => %s) %s) (fun %s => %s))" % (
+                pat(self.state()), c, pat(self.state()), body, tup(self.state()), pat(self.state()), cont)
+        if isinstance(s, ast.If):
+            names = self.narrow_names(s.test, env)
+            stored = {n.id for b in s.body for n in ast.walk(b) if isinstance(n, ast.Name) and isinstance(n.ctx, ast.Store)}
+            if stored & set(names): bad(s, "a variable tested for truth is reassigned in the branch")
+            m = self.method_call(s.test) if isinstance(s.test, ast.Call) else None
+            if m is None or m[1].pure:
+                c, t, g = self.test(s.test, env)
+                for n_ in names: self.narrow.add(n_)
+                try:
+                    a = self.block(s.body, env, None)
+                finally:
+                    for n_ in names: self.narrow.discard(n_)
+                b = self.block(s.orelse, env, None)
+                cont = self.block(rest, self.after_if(s, env), k)
+                return self.guard(g, "(seqo (if %s then %s else %s) (fun %s => %s))" % (c, a, b, pat(self.state()), cont))
+        if isinstance(s, ast.For) and isinstance(s.target, ast.Tuple) and all(isinstance(x, ast.Name) for x in s.target.elts) \
+           and not (isinstance(s.iter, ast.Call) and isinstance(s.iter.func, ast.Name) and s.iter.func.id == "enumerate"):
+            if s.orelse: bad(s, "for-else")
+            c, t, g = self.expr(s.iter, env)
+            names = [x.id for x in s.target.elts]
+            if g or t[0] != "list" or t[1][0] != "tuple" or len(t[1][1]) != len(names): bad(s, "loop over tuples: shape")
+            for n_, t_ in zip(names, t[1][1]): self.declare(n_, t_, s)
+            body = self.block(s.body, env | set(names), None)
+            cont = self.block(rest, env, k)
+            binds = ("let %s := it_ in " % pat("it_" + n_ for n_ in names)) + "".join("let v_%s := it_%s in " % (n_, n_) for n_ in names)
+            return "(seqo (unloop (fold_left (fun o_ it_ => seqo o_ (fun %s => %suncont %s)) %s (Next %s))) (fun %s => %s))" % (
+                pat(self.state()), binds, body, c, tup(self.state()), pat(self.state()), cont)
+        if isinstance(s, ast.For) and isinstance(s.target, ast.Name):
+            c, t, g = self.expr(s.iter, env)
+            if t in (CL, SETT):      # iteration over a collection: its strings in order
+                s = ast.copy_location(ast.For(target=s.target, iter=ast.Call(func=ast.Name(id="list", ctx=ast.Load()), args=[s.iter], keywords=[]), body=s.body, orelse=s.orelse), s)
+                if t == SETT: bad(s, "iteration over a set (order unspecified)")
+                return Fn.block(self, [s] + rest, env, k)
+        if isinstance(s, ast.Assign) and len(s.targets) == 1 and isinstance(s.targets[0], ast.Name):
+            x, v = s.targets[0].id, s.value
+            src = ast.unparse(v)
+            if x in self.params and x in self.vars and src == "[]" and self.listy(self.vars[x]):
+                return "(let v_%s : %s := [] in %s)" % (x, coq_type(self.vars[x]), self.block(rest, env | {x}, k))
+            if src in ("[]", "{}", "set()") or (src.startswith("deque(") and isinstance(v, ast.Call) and len(v.args) <= 1 and not v.keywords):
+                if x not in self.ctypes: bad(s, "container %s is never stored into: its element type is unknown" % x)
+                ct = self.ctypes[x]
+                if src == "{}":
+                    t = T_dict(ct[0], ct[1]); init = "[]"
+                elif src == "set()":
+                    if ct != PS: bad(s, "set of %r" % (ct,))
+                    t = SETT; init = "[]"
+                elif src == "[]":
+                    t = T_list(ct); init = "[]"
+                else:
+                    t = T_list(ct); init = "[]"
+                    if v.args:
+                        c, t0, g0 = self.expr(v.args[0], env)
+                        if t0 != t or g0: bad(s, "deque initialiser")
+                        init = c
+                self.declare(x, t, s)
+                return "(let v_%s : %s := %s in %s)" % (x, coq_type(t), init, self.block(rest, env | {x}, k))
+            if isinstance(v, ast.Call) and isinstance(v.func, ast.Attribute) and v.func.attr == "popleft" and isinstance(v.func.value, ast.Name) and not v.args:
+                q = v.func.value.id
+                if q not in env or self.vars[q][0] != "list": bad(s, "popleft of a non-deque")
+                self.declare(x, self.vars[q][1], s)
+                return "(match v_%s with [] => Raised EIndex | hd_ :: tl_ => let v_%s := hd_ in let v_%s := tl_ in %s end)" % (q, x, q, self.block(rest, env | {x}, k))
+            if x in self.params and x in self.vars:      # a parameter assigned again: keep its declared type
+                c, t, g = self.expr(v, env)
+                if not self.same(t, self.vars[x]): bad(s, "parameter %s changes type" % x)
+                return self.guard(g, "(let v_%s := %s in %s)" % (x, c, self.block(rest, env | {x}, k)))
+        if isinstance(s, ast.Assign) and len(s.targets) == 1 and isinstance(s.targets[0], ast.Subscript) and isinstance(s.targets[0].value, ast.Name):
+            d = s.targets[0].value.id
+            if d in env and self.vars[d][0] == "dict":
+                kc, kt, kg = self.expr(s.targets[0].slice, env)
+                c, t, g = self.expr(s.value, env)
+                if (kt, t) != self.vars[d][1:]: bad(s, "dict entry types %r" % ((kt, t),))
+                return self.guard(kg + g, "(let v_%s := kdict_set %s v_%s %s %s in %s)" % (d, self.eqb_of(kt), d, kc, c, self.block(rest, env, k)))
+        if isinstance(s, ast.Expr) and isinstance(s.value, ast.Call) and isinstance(s.value.func, ast.Attribute) and isinstance(s.value.func.value, ast.Name) \
+           and len(s.value.args) == 1 and not s.value.keywords and s.value.func.attr in ("append", "add"):
+            x = s.value.func.value.id
+            if x not in env: bad(s, "store into an unassigned container")
+            tx = self.vars[x]
+            c, t, g = self.expr(s.value.args[0], env)
+            if s.value.func.attr == "add":
+                if tx != SETT or t != PS: bad(s, "add")
+                new = "(set_add %s v_%s)" % (c, x)
+            elif tx == CL:
+                if t != PS: bad(s, "append to a collection")
+                new = "(coll_append v_%s %s)" % (x, c)
+            elif tx[0] == "list":
+                if t != tx[1]: bad(s, "append of another type")
+                new = "(v_%s ++ [%s])" % (x, c)
+            else:
+                bad(s, "append")
+            return self.guard(g, "(let v_%s := %s in %s)" % (x, new, self.block(rest, env, k)))
+        if isinstance(s, ast.Return) and s.value is not None and not (isinstance(s.value, ast.Constant) and s.value.value is None):
+            m = self.method_call(s.value) if isinstance(s.value, ast.Call) else None
+            if m is not None and not m[1].pure:
+                args, fn = m
+                if fn.ret == QT: self.qret = True
+                self.set_ret(fn.ret, s)
+                return "(retcall (%s %s))" % (fn.coq, args)
+            c, t, g = self.expr(s.value, env)
+            if t == QT: self.qret = True
+            if t == Z and self.qret: c, t = "(%s, 1)" % c, QT
+            self.set_ret(t, s)
+            return self.guard(g, "Ret %s" % c)
+        return Fn.block(self, stmts, env, k)
+
+    def set_ret(self, t, node):
+        if self.ret == Z and t == QT: self.ret = QT
+        Fn.set_ret(self, t, node)
+
+    def prepare(self):
+        body = [s for s in self.node.body if not (isinstance(s, ast.Expr) and isinstance(s.value, ast.Constant))]
+        self.ann = {}
+        self.pure = False
+        if len(body) == 1 and isinstance(body[0], ast.Return) and not self.fuel and (not isinstance(body[0].value, ast.Call) or self.module_call(body[0].value) is None):
+            c, t, g = self.expr(body[0].value, set())
+            self.pure = not g and t != QT
+
+    def emit(self):
+        self.prepare()
+        body = self.node.body
+        ps = ("(fuel : nat) " if self.fuel else "") + " ".join("(v_%s : %s)" % (n, coq_type(t)) for n, t in self.params.items())
+        if self.pure:
+            ret = [s for s in body if isinstance(s, ast.Return)][0]
+            c, t, g = self.expr(ret.value, set())
+            self.ret = t
+            return "Definition %s %s : %s := %s." % (self.coq, ps, coq_type(t), c)
+        env0 = set(self.reassigned)
+        self.hcount = 0
+        self.block(body, env0, None)
+        self.hcount = 0
+        term = self.block(body, env0, None)
+        if self.ret is None: bad(self.node, "no return type")
+        inits = "".join("let v_%s : %s := %s in " % (v, coq_type(t), default(t, self.tr.enums)) for v, t in self.vars.items() if v not in self.params)
+        return ("(* %s%s, lines %d-%d; state = (%s) *)\nDefinition %s %s : fres %s :=\n  %s@finish %s _ (%s)." % (
+            (self.cls + "." if self.cls else ""), self.name, self.node.lineno, self.node.end_lineno, ", ".join(self.vars), self.coq, ps, coq_type(self.ret), inits, self.state_type(), term))
+
+
+class AppTranslator:
+    """graph and orbit applications: common/get_graph.py, application/otoc.py, fourpoint.py, charges.py and the read-only graph methods of
+    PauliStringCollection / PauliString they rest on"""
+    def __init__(self, repo):
+        self.repo = repo
+        self.enums, self.exns, self.fns, self.families = {}, [], {}, {}
+        rd = lambda rel: ast.parse(open(os.path.join(repo, "src", "paulie", rel), newline=None, encoding="utf-8-sig").read())
+        self.mods = {"get_graph": rd("common/get_graph.py"), "otoc": rd("application/otoc.py"), "fourpoint": rd("application/fourpoint.py"),
+                     "charges": rd("application/charges.py")}
+        coll = rd("common/pauli_string_collection.py"); ps = rd("common/pauli_string_bitarray.py")
+        self.cdefs = {f.name: f for c in coll.body if isinstance(c, ast.ClassDef) and c.name == "PauliStringCollection" for f in c.body if isinstance(f, ast.FunctionDef)}
+        self.pdefs = {f.name: f for c in ps.body if isinstance(c, ast.ClassDef) and c.name == "PauliString" for f in c.body if isinstance(f, ast.FunctionDef)}
+        def body_of(n):
+            return [ast.unparse(x) for x in n.body if not (isinstance(x, ast.Expr) and isinstance(x.value, ast.Constant))]
+        pins = [(self.cdefs, "__len__", ["return len(self.generators)"]),
+                (self.cdefs, "__iter__", ["self.nextpos = 0", "return self"]),
+                (self.cdefs, "__next__", ["if self.nextpos >= len(self):\n    raise StopIteration", "value = self.generators[self.nextpos]", "self.nextpos += 1", "return value"]),
+                (self.cdefs, "create_instance", ["if len(self.generators) == 0:\n    raise PauliStringCollectionException('Empty generator')",
+                                                 "return self.generators[0].create_instance(n=n, pauli_str=pauli_str)"]),
+                (self.pdefs, "create_instance", ["return PauliString(n=n, pauli_str=pauli_str)"]),
+                (self.pdefs, "__len__", ["return len(self.bits) // 2"]),
+                (self.pdefs, "gen_all_pauli_strings", ["n = len(self)", "pauli_string = PauliString(n=n)", "last = PauliString(bits=bitarray([1] * (2 * n)))",
+                                                       "while pauli_string != last:\n    yield pauli_string.copy()\n    pauli_string.inc()", "yield pauli_string.copy()"])]
+        for defs, name, want in pins:
+            if name not in defs or body_of(defs[name]) != want:
+                raise Unsupported("pinned source of %s changed: %r" % (name, body_of(defs[name]) if name in defs else None))
+        if "__bool__" in self.pdefs or "__bool__" in self.cdefs or "__contains__" in self.cdefs or "__contains__" in self.pdefs:
+            raise Unsupported("__bool__ / __contains__ defined: the truthiness / membership contracts no longer apply")
+        for m, want in (("get_graph", "from itertools import combinations"), ("otoc", "from collections import deque"), ("charges", "from itertools import combinations"),
+                        ("fourpoint", "from paulie.application.otoc import average_otoc")):
+            if want not in [ast.unparse(n) for n in self.mods[m].body if isinstance(n, (ast.Import, ast.ImportFrom))]:
+                raise Unsupported("%s.py no longer has `%s`" % (m, want))
+        if "from paulie.common.get_graph import get_graph" not in [ast.unparse(n) for n in coll.body if isinstance(n, ast.ImportFrom)] or \
+           "from itertools import combinations" not in [ast.unparse(n) for n in coll.body if isinstance(n, ast.ImportFrom)]:
+            raise Unsupported("pauli_string_collection.py imports changed")
+
+    def fn_node(self, where, name):
+        if where == "PauliStringCollection": n = self.cdefs.get(name)
+        elif where == "PauliString": n = self.pdefs.get(name)
+        else: n = {f.name: f for f in self.mods[where].body if isinstance(f, ast.FunctionDef)}.get(name)
+        if n is None: raise Unsupported("%s.%s not found in the source" % (where, name))
+        return n
+
+    # (where, name, class, specialised parameter, [(mode, key, coq name)], default key)
+    WANT = [("PauliString", "get_commutants", "PauliString", "generators", [("none", "default", "py_A_PS_get_commutants_all")], "default"),
+            ("get_graph", "get_graph", "", "flag_labels", [("true", "true", "py_A_get_graph_labels"), ("false", "false", "py_A_get_graph_plain")], "true"),
+            ("PauliStringCollection", "get_size", "PauliStringCollection", None, [(None, "default", "py_A_C_get_size")], "default"),
+            ("PauliStringCollection", "get_pair", "PauliStringCollection", None, [(None, "default", "py_A_C_get_pair")], "default"),
+            ("PauliStringCollection", "get_anticommutation_pair", "PauliStringCollection", None, [(None, "default", "py_A_C_get_anticommutation_pair")], "default"),
+            ("PauliStringCollection", "get_anticommutation_fraction", "PauliStringCollection", None, [(None, "default", "py_A_C_get_anticommutation_fraction")], "default"),
+            ("PauliStringCollection", "get_commutants", "PauliStringCollection", None, [(None, "default", "py_A_C_get_commutants")], "default"),
+            ("PauliStringCollection", "get_graph", "PauliStringCollection", None, [(None, "default", "py_A_C_get_graph")], "default"),
+            ("PauliStringCollection", "get_commutator_graph", "PauliStringCollection", None, [(None, "default", "py_A_C_get_commutator_graph")], "default"),
+            ("otoc", "average_otoc", "", None, [(None, "default", "py_A_average_otoc")], "default"),
+            ("fourpoint", "fourpoint", "", None, [(None, "default", "py_A_fourpoint")], "default"),
+            ("charges", "non_commuting_charges", "", None, [(None, "default", "py_A_non_commuting_charges")], "default")]
+
+    def run(self):
+        out = ["(* GENERATED by tools/py2coq.py from common/get_graph.py, application/otoc.py, fourpoint.py, charges.py and the graph methods of",
+               "   common/pauli_string_collection.py, common/pauli_string_bitarray.py — do not edit *)",
+               "From PauLieRefine Require Import PySem.", "From PauLie Require Import Pauli PauliBits Collection Graph.", "Open Scope Z_scope.", "",
+               "Definition res_ok {A} (r : res A) : bool := match r with Ok _ => true | ValueError => false end.",
+               "Definition res_val {A} (d : A) (r : res A) : A := match r with Ok a => a | ValueError => d end.",
+               "(* bool(x) for x : PauliString | None — PauliString has __len__ and no __bool__ *)",
+               "Definition opt_truthy (o : option pstr) : bool := match o with Some p => negb (Nat.eqb (length p) 0) | None => false end.",
+               "Definition unopt (o : option pstr) : pstr := match o with Some p => p | None => [] end.",
+               "Definition set_add (x : pstr) (s : list pstr) : list pstr := if memS x s then s else x :: s.",
+               "Definition coll_append (l : list pstr) (p : pstr) : list pstr := gens (fst (step true {| gens := l; cache := None |} (Append p))).", ""]
+        for where, name, cls, sp, variants, dflt in self.WANT:
+            fam = {"spec": sp if variants[0][0] in ("true", "false") else None, "default": dflt, "fns": {}}
+            for mode, key, coq in variants:
+                node = self.fn_node(where, name)
+                orig = node
+                drop = ()
+                if mode is not None:
+                    import copy
+                    node = copy.deepcopy(node)
+                    node = ast.fix_missing_locations(Specialise(sp, mode).visit(node))
+                    drop = (sp,)
+                    # the specialised parameter's default must be the value the default specialisation assumes
+                    a = node.args
+                    names = [x.arg for x in a.args]; i = names.index(sp); di = i - (len(a.args) - len(a.defaults))
+                    if di < 0: raise Unsupported("%s: parameter %s has no default" % (name, sp))
+                    dv = a.defaults[di]
+                    okd = (isinstance(dv, ast.Constant) and ((mode in ("none",) and dv.value is None) or (mode in ("true", "false") and (dv.value is True) == (dflt == "true") and isinstance(dv.value, bool))))
+                    if not okd: raise Unsupported("%s: default of %s changed" % (name, sp))
+                    del a.args[i]; del a.defaults[di]
+                f = AppFn(self, node, cls if cls else None, coq, drop, orig)
+                fam["fns"][key] = f
+                self.families[(cls, name)] = fam
+                out.append(f.emit()); out.append("")
+                self.fns[coq] = f
+            # a callee is visible only after it has been emitted (no recursion)
+        return "\n".join(out)
+
+
 def main():
     repo, dst = sys.argv[1], sys.argv[2]
     which = sys.argv[3] if len(sys.argv) > 3 else "classification"
-    path = os.path.join(repo, "src", "paulie", {"classification": "classifier/classification.py", "compiler": "application/pauli_compiler.py", "pstring": "common/pauli_string_bitarray.py", "collection": "common/pauli_string_collection.py", "parser": "common/pauli_string_parser.py", "table": "common/two_local_generators.py"}[which])
+    path = os.path.join(repo, "src", "paulie", {"classification": "classifier/classification.py", "compiler": "application/pauli_compiler.py", "pstring": "common/pauli_string_bitarray.py", "collection": "common/pauli_string_collection.py", "parser": "common/pauli_string_parser.py", "table": "common/two_local_generators.py", "apps": "application/otoc.py"}[which])
     try:
-        text = Translator(path).run() if which == "classification" else (CompTranslator(repo).run() if which == "compiler" else (PSTranslator(repo).run() if which == "pstring" else (CollTranslator(repo).run() if which == "collection" else (ParserTranslator(repo).run() if which == "parser" else TableTranslator(repo).run()))))
+        text = Translator(path).run() if which == "classification" else (CompTranslator(repo).run() if which == "compiler" else (PSTranslator(repo).run() if which == "pstring" else (CollTranslator(repo).run() if which == "collection" else (ParserTranslator(repo).run() if which == "parser" else (AppTranslator(repo).run() if which == "apps" else TableTranslator(repo).run())))))
     except Unsupported as e:
         print("py2coq: cannot translate %s: %s" % (path, e)); sys.exit(3)
     with open(dst, "w") as f:
